@@ -32,6 +32,9 @@ class Verdict:
     invariant: str = ""        # name of a base-spec invariant violated on this trace, if any
 
 
+WRAPPER = None      # optional (name, text) of a generated module that EXTENDS the trace module
+
+
 def _run(module: str, cfg_text: str, traces: Sequence[dict], diag: bool, timeout: int, dfs: bool):
     d = tlc.scratch_dir("trace")
     try:
@@ -39,7 +42,12 @@ def _run(module: str, cfg_text: str, traces: Sequence[dict], diag: bool, timeout
         tf.write_text(json.dumps(list(traces)))
         cfgp = d / "trace.cfg"
         cfgp.write_text(cfg_text.replace("@DIAG@", "TRUE" if diag else "FALSE"))
-        r = tlc.run_tlc(module, str(cfgp), workers=1, timeout=timeout, env={"TRACE_FILE": str(tf)}, dfs=dfs)
+        if WRAPPER is not None:
+            (d / (WRAPPER[0] + ".tla")).write_text(WRAPPER[1])
+            r = tlc.run_tlc(WRAPPER[0], str(cfgp), workers=1, timeout=timeout, env={"TRACE_FILE": str(tf)}, dfs=dfs,
+                            spec_dir=d, library=tlc.SPECS)
+        else:
+            r = tlc.run_tlc(module, str(cfgp), workers=1, timeout=timeout, env={"TRACE_FILE": str(tf)}, dfs=dfs)
         return r
     finally:
         import shutil
